@@ -26,7 +26,8 @@ def scenarios(rng, count, mechs=("MST", "AIM", "MWEM", "AdaGrid"), include_known
             if d == 2 and rng.random() < 0.5:
                 continue
             p["rounds"] = rng.choice([d, 2 * d, None] + ([1] if include_known else []))
-            p["workload"] = rng.choice([None, [tuple(attrs)]]) if d == 3 else None
+            # all pairs / one triple / a workload that leaves an attribute uncovered
+            p["workload"] = rng.choice([None, [tuple(attrs)], [tuple(attrs[:2])], [tuple(attrs[1:])]]) if d == 3 else None
         elif name == "MWEM":
             p["noise"] = rng.choice(["gaussian", "laplace"])
             p["bounded"] = rng.choice([False, True])
@@ -53,8 +54,28 @@ def adversarial(rng):
         for noise in ("gaussian", "laplace"):
             p = {"epsilon": 1.0, "delta": 0.0 if noise == "laplace" else 1e-6, "noise": noise, "bounded": bounded, "rounds": 1, "alpha": 0.5}
             out.append({"mech": "MWEM", "params": p, "attrs": ["a", "b", "c"], "sizes": [2, 2, 2], "records": [list(r) for r in recs],
-                        "seed": rng.randrange(10 ** 6), "forced_neighbours": [("replace#0->(1, 0, 0)", [[1, 0, 0]] + [list(r) for r in recs[1:]])] if bounded
+                        "seed": rng.randrange(10 ** 6), "all_neighbours": True, "forced_neighbours": [("replace#0->(1, 0, 0)", [[1, 0, 0]] + [list(r) for r in recs[1:]])] if bounded
                         else [("remove#0", [list(r) for r in recs[1:]]), ("add(1, 0, 0)", [list(r) for r in recs] + [[1, 0, 0]])]})
+    # 200 records over four binary attributes: cell (0,0) is over-represented in the (a,b) marginal [80,40,40,40] and
+    # under-represented in the (c,d) marginal [20,60,60,60]; adding / removing a record (0,0,0,0) moves the two scores apart
+    ab = [(0, 0)] * 80 + [(0, 1)] * 40 + [(1, 0)] * 40 + [(1, 1)] * 40
+    cd = [(0, 0)] * 20 + [(0, 1)] * 60 + [(1, 0)] * 60 + [(1, 1)] * 60
+    big = [[ab[i][0], ab[i][1], cd[(i * 7) % 200][0], cd[(i * 7) % 200][1]] for i in range(200)]
+    if [0, 0, 0, 0] not in big:
+        big[0] = [0, 0, 0, 0]
+    i0 = big.index([0, 0, 0, 0])
+    for alpha, rounds in ((0.9, 2), (0.5, 1)):
+        p = {"epsilon": 1.0, "delta": 1e-6, "noise": "gaussian", "bounded": False, "rounds": rounds, "alpha": alpha,
+             "workload": [("a", "b"), ("c", "d")]}
+        out.append({"mech": "MWEM", "params": p, "attrs": ["a", "b", "c", "d"], "sizes": [2, 2, 2, 2], "records": [list(r) for r in big],
+                    "seed": rng.randrange(10 ** 6),
+                    "forced_neighbours": [("remove#%d" % i0, [list(r) for j, r in enumerate(big) if j != i0]),
+                                          ("add(0, 0, 0, 0)", [list(r) for r in big] + [[0, 0, 0, 0]])]})
+    # AIM with a workload that leaves an attribute uncovered (one-way releases are due only for covered attributes)
+    for wl in ([("a", "b")], [("b", "c")]):
+        p = {"epsilon": 1.0, "delta": 1e-6, "rounds": 4, "workload": wl}
+        out.append({"mech": "AIM", "params": p, "attrs": ["a", "b", "c"], "sizes": [2, 2, 2],
+                    "records": [[rng.randrange(2) for _ in range(3)] for _ in range(6)], "seed": rng.randrange(10 ** 6)})
     return out
 
 
@@ -63,6 +84,8 @@ def design_params(sc):
     t = {"mech": name, "d": d, "T": 1, "a10": 9, "n1": 1, "r": 2, "n3": 1, "f": [1, 1, 1], "fsum": 3}
     if name == "AIM":
         t["T"] = p.get("rounds") or 16 * d
+        if p.get("workload"):
+            t["d"] = len(set(a for c in p["workload"] for a in c))      # one-way releases only for attributes the workload touches
     elif name == "MWEM":
         t["T"] = p.get("rounds") or d
         t["a10"] = int(round(10 * p.get("alpha", 0.9)))
@@ -156,8 +179,8 @@ def run_all(scs, nbr_limit, rng, procs=16):
     jobs = []
     for sc in scs:
         adj = "replace" if (sc["mech"] == "MWEM" and sc["params"].get("bounded")) else "addremove"
-        nb = M.neighbours(sc["records"], sc["sizes"], adj, rng, limit=nbr_limit)
-        nb = list(sc.get("forced_neighbours", [])) + nb
+        nb = M.neighbours(sc["records"], sc["sizes"], adj, rng, limit=None if sc.get("all_neighbours") else nbr_limit)
+        nb = list(sc.get("forced_neighbours", [])) + [x for x in nb if x[0] not in {f[0] for f in sc.get("forced_neighbours", [])}]
         jobs.append((sc, nb))
     with multiprocessing.get_context("fork").Pool(procs) as pool:
         results = pool.map(pair_job, jobs, chunksize=1)
